@@ -228,9 +228,10 @@ def make_replay(pid, v, tier, seed):
             # no search rule carries this label: attach a failing input of the same property found on the real code
             k = sorted(found)[0]
             w = dict(found[k], observed='[witness found under search rule %s] %s' % (k, found[k]['observed']))
+            v['witness_label'] = k
         if w:
             v['input'], v['observed'] = w['input'], w['observed']
-    rec = dict(property=pid, obligation=v['obligation'], kind=v.get('kind'), clause=v.get('text'),
+    rec = dict(property=pid, obligation=v['obligation'], witness_label=v.get('witness_label', v['obligation']), kind=v.get('kind'), clause=v.get('text'),
                verifier_output=v.get('verifier_output'), input=v.get('input'), observed=v.get('observed'),
                replay_cmd='cd /verif/replay && cargo run --offline -- %s   # re-executes the witness search on the real code' % pid,
                note='no failing input found by the witness search; the failed obligation and the verifier output are the report'
@@ -255,7 +256,8 @@ def replay(pid, path):
     if not rec.get('input'):
         print('replay: no failing input recorded (obligation %s); verifier output above' % rec.get('obligation'))
         return 1
-    w = search(pid, 0).get(rec['obligation'])
+    found = search(pid, 0)
+    w = found.get(rec.get('witness_label') or rec['obligation']) or found.get(rec['obligation'].replace('@bounded', ''))
     if w:
         print('replay: REPRODUCED on the real code: %s' % json.dumps(w))
         return 1
